@@ -127,7 +127,7 @@ def check_cases(rep, tier, prop):
         random.Random(SEED).shuffle(order)
         jobs = [{"seed": SEED, "nwit": nwit, "cases": [cases[i] for i in part]} for part in split(order, NPROC * 3)]
         outs = run_jobs(jobs)
-        seen = set()
+        seen, reported = set(), set()
         executed = 0
         for o in outs:
             for res in o["cases"]:
@@ -136,7 +136,8 @@ def check_cases(rep, tier, prop):
                 seen.add(res[0])
                 rep.cov["traces_validated_against_impl"] += 1
                 why = judge_case(case, res)
-                if why:
+                if why and res[0] not in reported:      # one violation per abstract case
+                    reported.add(res[0])
                     rep.violation("%s  [%s; witness %d]" % (why, describe(case), res[1]),
                                   {"engine": "c14", "module": "checks_c14", "kind": "case", "case": case, "w": res[1],
                                    "via": res[2], "observed": res[3:5], "seed": SEED, "nwit": nwit})
